@@ -189,9 +189,9 @@ def _work(spec):
 # ---------------------------------------------------------------- driver side
 
 
-def _plan(chk, tier):
+def _plan(chk, tier, only=None):
     """Round-robin over arms in chunks so that a wall cap truncates all arms alike."""
-    arms = chk.arms(tier)
+    arms = [(a, n) for a, n in chk.arms(tier) if only is None or a in only]
     scale = float(os.environ.get("VERIF_SCALE", "1"))
     if scale != 1:
         arms = [(a, max(1, int(n * scale))) for a, n in arms]
@@ -229,82 +229,97 @@ def run_check(pid, tier, seed, budget_s=None, workers=None, digests_out=None, st
     t0 = time.time()
     core.use_repo()
     chk = load_check(pid)
-    chk.preload()  # import library modules in the template (no library call is made)
     budget = float(budget_s if budget_s else chk.budget(tier))
     workers = workers or int(os.environ.get("VERIF_WORKERS", os.cpu_count() or 4))
-    specs = _plan(chk, tier)
-    total_planned = sum(n for _, _, n in specs)
     agg = Agg()
     truncated = False
+    total_planned = 0
     ctx = multiprocessing.get_context("fork")
-    pending = set()
-    it = iter(specs)
     stop = False
-    with cf.ProcessPoolExecutor(max_workers=workers, mp_context=ctx) as ex:
-        def submit_more():
-            nonlocal stop
-            while len(pending) < workers * 2 and not stop:
-                s = next(it, None)
-                if s is None:
-                    break
-                a, st, n = s
-                pending.add(ex.submit(_work, (pid, tier, seed, a, st, n, bool(digests_out))))
-        submit_more()
-        while pending:
-            done, _ = cf.wait(pending, timeout=5, return_when=cf.FIRST_COMPLETED)
-            for f in done:
-                pending.discard(f)
-                try:
-                    agg.merge(f.result())
-                except Exception as e:
-                    agg.errors.append(f"worker failed: {type(e).__name__}: {e}")
-            if time.time() - t0 > budget:
-                if next(it, None) is not None or stop is False and pending:
-                    truncated = True
-                stop = True
-            if stop_early and agg.viol and not stop:
-                stop = True
-                truncated = True
-            if len(agg.errors) > 20:
-                stop = True
-            submit_more()
-            if stop:
-                # let in-flight chunks finish (bounded by chunk size * run_timeout)
-                pass
-    exit_code = 0
+    state = {"exit": 0, "reported": 0, "done": set()}
     lines = []
-    # ---- violations
-    by_class = {}
-    for arm, i, rs, v, case in sorted(agg.viol, key=lambda x: (x[0], x[1], x[3]["oracle"], x[3]["site"])):
-        by_class.setdefault(core.vclass(v), (arm, i, rs, v, case))
-    reported = 0
-    for c, (arm, i, rs, v, case) in list(by_class.items())[:MAX_CLASSES]:
-        if case is None:
-            agg.errors.append(f"violation {c} without a case")
-            continue
-        vcase = dict(case)
-        try:
-            res = execute_case(chk, vcase)
-        except Exception as e:
-            agg.errors.append(f"re-execution of {pid}/{arm}/{i} failed: {e}")
-            continue
-        same = [x for x in res["viol"] if core.vclass(x) == c]
-        if not same:
-            agg.errors.append(
-                f"violation {c} of {pid}/{arm}/{i} did not reproduce when its resolved case was "
-                f"re-executed alone in a pristine child (history-dependent or nondeterministic)"
-            )
-            continue
-        n_before = len(vcase.get("ops", []))
-        mcase, mv, tried = shrink.minimise(chk, vcase, c, execute_case)
-        path = write_replay(chk, mcase, mv, seed, minimised_from=n_before)
-        lines.append(f"VIOLATION property={pid} replay={path}")
-        lines.append(f"  oracle={mv['oracle']} site={mv['site']} arm={arm} run={i} ops {n_before}->{len(mcase.get('ops', []))} ({tried} candidates tried)")
-        lines.append(f"  detail: {mv['detail']}")
-        reported += 1
-        exit_code = 1
+
+    def process_violations():
+        # ---- violations
+        by_class = {}
+        for arm, i, rs, v, case in sorted(agg.viol, key=lambda x: (x[0], x[1], x[3]["oracle"], x[3]["site"])):
+            by_class.setdefault(core.vclass(v), (arm, i, rs, v, case))
+        for c, (arm, i, rs, v, case) in list(by_class.items())[:MAX_CLASSES]:
+            if c in state["done"] or state["reported"] >= MAX_CLASSES:
+                continue
+            state["done"].add(c)
+            if case is None:
+                agg.errors.append(f"violation {c} without a case")
+                continue
+            vcase = dict(case)
+            try:
+                res = execute_case(chk, vcase)
+            except Exception as e:
+                agg.errors.append(f"re-execution of {pid}/{arm}/{i} failed: {e}")
+                continue
+            same = [x for x in res["viol"] if core.vclass(x) == c]
+            if not same:
+                agg.errors.append(
+                    f"violation {c} of {pid}/{arm}/{i} did not reproduce when its resolved case was "
+                    f"re-executed alone in a pristine child (history-dependent or nondeterministic)"
+                )
+                continue
+            n_before = len(vcase.get("ops", []))
+            mcase, mv, tried = shrink.minimise(chk, vcase, c, execute_case)
+            path = write_replay(chk, mcase, mv, seed, minimised_from=n_before)
+            lines.append(f"VIOLATION property={pid} replay={path}")
+            lines.append(f"  oracle={mv['oracle']} site={mv['site']} arm={arm} run={i} ops {n_before}->{len(mcase.get('ops', []))} ({tried} candidates tried)")
+            lines.append(f"  detail: {mv['detail']}")
+            state["reported"] += 1
+            state["exit"] = 1
+
+    # arm groups: each group gets its own pool, forked after the group's preload -- so a group can run in processes that imported
+    # less of the library than the next one (import history is a configuration dimension of its own)
+    for gi, group in enumerate(chk.arm_groups(tier)):
+      chk.preload_group(gi)  # import library modules in the template (no library call is made)
+      specs = _plan(chk, tier, group)
+      total_planned += sum(n for _, _, n in specs)
+      pending = set()
+      it = iter(specs)
+      if stop:
+          truncated = truncated or bool(specs)
+          continue
+      with cf.ProcessPoolExecutor(max_workers=workers, mp_context=ctx) as ex:
+          def submit_more():
+              nonlocal stop
+              while len(pending) < workers * 2 and not stop:
+                  s = next(it, None)
+                  if s is None:
+                      break
+                  a, st, n = s
+                  pending.add(ex.submit(_work, (pid, tier, seed, a, st, n, bool(digests_out))))
+          submit_more()
+          while pending:
+              done, _ = cf.wait(pending, timeout=5, return_when=cf.FIRST_COMPLETED)
+              for f in done:
+                  pending.discard(f)
+                  try:
+                      agg.merge(f.result())
+                  except Exception as e:
+                      agg.errors.append(f"worker failed: {type(e).__name__}: {e}")
+              if time.time() - t0 > budget:
+                  if next(it, None) is not None or stop is False and pending:
+                      truncated = True
+                  stop = True
+              if stop_early and agg.viol and not stop:
+                  stop = True
+                  truncated = True
+              if len(agg.errors) > 20:
+                  stop = True
+              submit_more()
+              if stop:
+                  # let in-flight chunks finish (bounded by chunk size * run_timeout)
+                  pass
+      # violations of this group are confirmed, minimised and written NOW, while this process still has the group's import state
+      process_violations()
     for kid, n in sorted(agg.known.items()):
         lines.append(f"KNOWN-FINDING: property={pid} {kid}: {agg.known_what[kid]} (seen {n}x)")
+    exit_code, reported = state["exit"], state["reported"]
     if agg.errors:
         for e in agg.errors[:10]:
             lines.append("HARNESS-ERROR " + e.replace("\n", "\n    "))
@@ -390,9 +405,13 @@ def evidence_doc(chk, tier, seed, agg, wall, reported, truncated, planned, worke
 def replay(pid, path):
     core.use_repo()
     chk = load_check(pid)
-    chk.preload()
     with open(path) as f:
         case = json.load(f)
+    # same import state as the arm's group had (groups are cumulative)
+    groups = chk.arm_groups("quick")
+    upto = next((gi for gi, g in enumerate(groups) if g is not None and case.get("arm") in g), len(groups) - 1)
+    for gi in range(upto + 1):
+        chk.preload_group(gi)
     want = (case["violation"]["oracle"], case["violation"]["site"])
     res = execute_case(chk, case)
     kf = known.load()
